@@ -373,6 +373,11 @@ class AffTok(Ext):
                     return pt
                 return (RF.sym(f"mapx[{tag}]({pt[0]!r},{pt[1]!r})"), RF.sym(f"mapy[{tag}]({pt[0]!r},{pt[1]!r})"))
             return PyCallable(mp)
+        if attr in ("a", "b", "c", "d", "e", "f"):
+            from sa.poly import RF
+            if not self.app:
+                return {"a": 1, "b": 0, "c": 0, "d": 1, "e": 0, "f": 0}[attr]
+            return RF.sym(f"{attr}[{'*'.join(self.app)}]")
         raise Undecided(f"Affine2D.{attr} not modelled on symbolic transforms")
 
     def __repr__(self):
